@@ -1,0 +1,87 @@
+// SPDX-FileCopyrightText: 2026 The Pion community <https://pion.ly>
+// SPDX-License-Identifier: MIT
+
+//go:build verif && !js
+
+package webrtc
+
+import (
+	"errors"
+
+	"github.com/pion/dtls/v3/pkg/crypto/fingerprint"
+	"github.com/pion/sdp/v3"
+)
+
+// VerifExtractFingerprint runs extractFingerprint on a description built from plain key/value
+// attribute lists (verification hook, C14). session holds the session-level attributes, media one
+// attribute list per m-section.
+func VerifExtractFingerprint(session [][2]string, media [][][2]string) (value, hash string, err error) {
+	desc := &sdp.SessionDescription{}
+	for _, a := range session {
+		desc.Attributes = append(desc.Attributes, sdp.Attribute{Key: a[0], Value: a[1]})
+	}
+	for _, m := range media {
+		md := &sdp.MediaDescription{}
+		for _, a := range m {
+			md.Attributes = append(md.Attributes, sdp.Attribute{Key: a[0], Value: a[1]})
+		}
+		desc.MediaDescriptions = append(desc.MediaDescriptions, md)
+	}
+
+	return extractFingerprint(desc)
+}
+
+// VerifExtractFingerprintSDP parses SDP text with pion/sdp and runs extractFingerprint on it
+// (verification hook, C14). parseErr is set when the text is not accepted by the parser.
+func VerifExtractFingerprintSDP(text string) (value, hash string, err, parseErr error) {
+	desc := &sdp.SessionDescription{}
+	if parseErr = desc.UnmarshalString(text); parseErr != nil {
+		return "", "", nil, parseErr
+	}
+	value, hash, err = extractFingerprint(desc)
+
+	return value, hash, err, nil
+}
+
+// VerifVerifyPeerCertificate runs the VerifyPeerCertificate callback the DTLS transport hands to
+// pion/dtls on a bare DTLSTransport holding only the fields the callback touches (verification
+// hook, C14). class is "" on acceptance, otherwise names the error; recorded is what
+// GetRemoteCertificate returns afterwards.
+func VerifVerifyPeerCertificate(
+	rawCerts [][]byte, fingerprints []DTLSFingerprint, disableVerification bool,
+) (class string, recorded []byte) {
+	se := &SettingEngine{}
+	se.DisableCertificateFingerprintVerification(disableVerification)
+	transport := &DTLSTransport{
+		api:              &API{settingEngine: se},
+		remoteParameters: DTLSParameters{Fingerprints: fingerprints},
+	}
+	err := transport.verifyPeerCertificateFunc()(rawCerts, nil)
+	recorded = transport.GetRemoteCertificate()
+	switch {
+	case err == nil:
+		return "", recorded
+	case errors.Is(err, errNoMatchingCertificateFingerprint):
+		return "nomatch", recorded
+	case errors.Is(err, errNoRemoteCertificate):
+		return "nocert", recorded
+	}
+	if _, herr := fingerprint.HashFromString("\x00"); herr != nil && errors.Is(err, herr) {
+		return "badalgo", recorded
+	}
+
+	return "badcert", recorded
+}
+
+// VerifPresentedCertificate returns the DER bytes of the certificate prepareStart hands to
+// pion/dtls for this PeerConnection's DTLS transport (verification hook, C14).
+func VerifPresentedCertificate(pc *PeerConnection) []byte {
+	t := pc.dtlsTransport
+	t.lock.RLock()
+	defer t.lock.RUnlock()
+	if len(t.certificates) == 0 || t.certificates[0].x509Cert == nil {
+		return nil
+	}
+
+	return append([]byte{}, t.certificates[0].x509Cert.Raw...)
+}
